@@ -652,6 +652,9 @@ class Interp(object):
             if isinstance(ca, ValCell) and isinstance(cb, ValCell):
                 return EQ(self.deref(st, a), self.deref(st, b))
             if isinstance(ca, ObjCell) and isinstance(cb, ObjCell):
+                r = self.obj_eq(st, a, b)          # a class that defines __eq__: through the contract of that method
+                if r is not None:
+                    return r
                 return TRUE if a.cid == b.cid else FALSE
         if isinstance(a, Ref) and isinstance(st.heap[a.cid], ValCell) and isinstance(b, Opaque) and b.sort == "Val":
             return EQ(self.deref(st, a), b.t)
@@ -669,6 +672,29 @@ class Interp(object):
         if (stringy(a) and (isinstance(b, Tup) or sb)) or (stringy(b) and (isinstance(a, Tup) or sa)):
             return FALSE          # a string never equals a tuple / a list
         raise Unsupported("== between %r and %r" % (a, b))
+
+    def obj_eq(self, st, a, b):
+        """`a == b` for two instances of repository classes when the class of `a` has a contract for `__eq__` (python calls
+        type(a).__eq__(a, b)): the (pure, non-forking) contract is applied and its Bool result is the comparison.  None
+        when there is no such contract (identity, as before).  A result that is not a truth value (NotImplemented: python
+        would go on with the reflected comparison) and instances of two different classes are out of the subset."""
+        ca, cb = st.heap[a.cid], st.heap[b.cid]
+        k = self.contracts.find_method(ca.cls, "__eq__")
+        if k is None:
+            return None
+        def real(c):
+            cs = self.contracts.classes.get(c)
+            return (cs.alias_of or c) if cs is not None else c
+        if real(ca.cls) != real(cb.cls):
+            raise Unsupported("== between instances of %s and %s (%s defines __eq__)" % (ca.cls, cb.cls, ca.cls))
+        from .calls import apply_contract
+        outs = apply_contract(self, st, k, [a, b], {})
+        if len(outs) != 1 or outs[0][0] is not st:
+            raise Unsupported("== between instances of %s: __eq__ forks" % ca.cls)
+        res = outs[0][1]
+        if not isinstance(res, Bool):
+            raise Unsupported("== between instances of %s: the contract of __eq__ does not give a Bool result" % ca.cls)
+        return res.t
 
     def v_eq(self, st, v, other):
         """a flow value (sort V) compared with a string or a context item: through the embedding of V into Val"""
@@ -761,6 +787,9 @@ class Interp(object):
                 return TRUE if a.node is b.node else FALSE
             if a.kind == "contract":
                 return TRUE if a.contract is b.contract else FALSE
+            if a.kind == "lib" and a.name == b.name and getattr(a, "mod", None) == getattr(b, "mod", None) \
+                    and getattr(a, "impl", None) is getattr(b, "impl", 0):
+                return TRUE          # the same library function under the same name (anything else: not decided here)
         for x, y in ((a, b), (b, a)):
             if isinstance(x, Opaque) and x.sort == "Val" and isinstance(y, Bool) and y.t.s in ("true", "false"):
                 # `<context value> is False / True`: an abstract predicate that implies == with the constant
@@ -844,6 +873,9 @@ class Interp(object):
         v = self.mod.resolve(name, self) if self.mod else None
         if v is not None:
             return v
+        if name == "NotImplemented":
+            # the builtin singleton (returned by rich comparisons for a foreign operand): only its identity matters
+            return Sentinel("builtins.NotImplemented")
         if name in BUILTINS:
             return Fun("builtin", name=name)
         if name in BUILTIN_EXC or self.world.is_exc(name):
@@ -1186,6 +1218,15 @@ class Interp(object):
             out += self.getattr_(s, v, e.attr)
         return out
 
+    def is_property(self, k):
+        """the method under contract k is decorated with the builtin `property` in the real source (decided on the AST)"""
+        try:
+            from .contracts import find_function
+            node = find_function(self.world.modctx(k.file).tree, k.qual)
+        except Exception:
+            return False
+        return any(isinstance(d, ast.Name) and d.id == "property" for d in getattr(node, "decorator_list", []))
+
     def getattr_(self, s, v, attr, default=None):
         if isinstance(v, Module):
             return [(s, self.world.module_attr(v.name, attr, self))]
@@ -1199,6 +1240,10 @@ class Interp(object):
                 # method of the class?
                 k = self.contracts.find_method(cell.cls, attr)
                 if k is not None:
+                    if not self.spec_mode and self.is_property(k):
+                        # `@property def attr(self)` in the real source: reading the attribute CALLS the method
+                        from .calls import apply_contract
+                        return apply_contract(self, s, k, [v], {})
                     return [(s, Fun("bound", contract=k, self_ref=v, name=attr))]
                 cspec = self.contracts.classes.get(cell.cls)
                 if cspec is not None and attr in cspec.class_attrs:
@@ -1232,6 +1277,17 @@ class Interp(object):
             r = obj_attr_read(self, s, v, attr)
             if r is not None:
                 return r
+            if self.c is not None and self.c.ghost.get("attr_safety") and not self.spec_mode:
+                # opt-in Contract(ghost={"attr_safety": True}) (contracts/P_core2.py: `no exception for any argument`):
+                # reading an attribute of an abstract object raises AttributeError unless the object has it -- an obligation
+                from .builtins_ import has_attr
+                h = has_attr(self, s, v, attr)
+                if not self.known(s, h):
+                    if self.may_catch(s, "AttributeError"):
+                        self.raise_(s.fork(NOT(h), "xAttr."), "AttributeError")
+                    else:
+                        self.emit("safety", "attribute-%s-exists" % attr, s, h)
+                    s.assume(h)
             return [(s, Fun("elem-method", elem=v, name=attr))]
         if isinstance(v, Tup) and attr in getattr(v, "ntfields", ()):
             return [(s, v.items[v.ntfields.index(attr)])]          # field of a namedtuple instance
@@ -1670,6 +1726,9 @@ class Interp(object):
                 for cid, cell in s2.heap.items():
                     if cid not in st.heap:
                         st.heap[cid] = cell
+                        if cid in s2.notes.get("deep_copies", ()):
+                            # (provenance of an object the item expression made by copy.deepcopy lives on with it)
+                            st.notes["deep_copies"] = set(st.notes.get("deep_copies", ())) | {cid}
                 for h in s2.pc[len(st.pc):]:
                     st.pc.append(h)
                 for nk in ("$clock", "$alloc_init", "$new_objs"):
